@@ -85,7 +85,9 @@ static void do_ep(vf_case *c) {
 	rpt_mul(&RC, &T, &RG, RN); OBL(T.inf, "%s: order: [r]G is not the identity", who);
 	mpz_mul(n, RN, RH); mpz_add_ui(t, RC.p, 1); mpz_sub(t, t, n); mpz_mul(t, t, t); mpz_mul_ui(u, RC.p, 4); OBL(mpz_cmp(t, u) <= 0, "%s: order: r h violates the Hasse bound", who);
 	{ int got = 0; for (long x = 0; x < 200 && got < 8; x++) { mpz_set_si(t, x); if (!rpt_lift_x(&RC, &T, t)) continue; got++; rpt_mul(&RC, &U, &T, n); OBL(U.inf, "%s: order: [r h]T is not the identity for the curve point with x = %ld: r h is not the curve order", who, x);
-			ep_t p, r; ep_new(p); ep_new(r); ep_inject(p, &T, REP_AFF, 1); int th; VF_TRY(th, ep_mul_cof(r, p)); if (th) vf_fail(NULL, "%s: cofactor: ep_mul_cof raised", who); else { ep_extract(&U, r); rpt_mul(&RC, &U, &U, RN); OBL(U.inf, "%s: cofactor: ep_mul_cof does not map into the order-r subgroup", who); rpt_mul(&RC, &U, &T, RH); ep_extract(&T, r); OBL(U.inf == T.inf, "%s: cofactor: ep_mul_cof kills a point that [h] does not (or the converse)", who); } } }
+			/* a test point of small even order (e.g. (2, 3) of order 6 on y^2 = x^3 + 1) walks ep_mul_cof's double-and-add through a sum whose difference has order two: finding L27 (ep_add_projc), judged in C03 */
+			const char *kf = NULL; { rpt V; rpt_init(&V); mpz_t j; mpz_init(j); for (unsigned long o = 2; o <= 64 && !kf; o += 2) { mpz_set_ui(j, o); rpt_mul(&RC, &V, &T, j); if (V.inf) kf = "L27-projc-add-difference-of-order-two"; } mpz_clear(j); rpt_clear(&V); }
+			ep_t p, r; ep_new(p); ep_new(r); ep_inject(p, &T, REP_AFF, 1); int th; VF_TRY(th, ep_mul_cof(r, p)); if (th) vf_fail(NULL, "%s: cofactor: ep_mul_cof raised", who); else { ep_extract(&U, r); rpt_mul(&RC, &U, &U, RN); transitions++; if (!U.inf) vf_fail(kf, "%s: cofactor: ep_mul_cof does not map the curve point with x = %ld into the order-r subgroup", who, x); rpt_mul(&RC, &U, &T, RH); ep_extract(&T, r); transitions++; if (U.inf != T.inf) vf_fail(kf, "%s: cofactor: ep_mul_cof kills the curve point with x = %ld although [h] does not (or the converse)", who, x); } } }
 	{ int lv = ep_param_level(); size_t rb = mpz_sizeinbase(RN, 2); OBL(lv > 0 && (size_t)lv * 2 <= rb + 4, "%s: level: advertised %d bits exceeds half the bit length of r (%zu)", who, lv, rb); }
 	/* stored optimisation classes of the coefficients */
 	{ mpz_t m3; mpz_init(m3); mpz_sub_ui(m3, RC.p, 3); int oa = ep_curve_opt_a(); OBL((oa == RLC_MIN3) == !mpz_cmp(RC.a, m3) && (oa == RLC_ZERO) == !mpz_sgn(RC.a) && (oa == RLC_ONE) == !mpz_cmp_ui(RC.a, 1), "%s: flags: coefficient class of a (%d) does not match a", who, oa); mpz_clear(m3); }
@@ -126,7 +128,13 @@ static void do_ep(vf_case *c) {
 		mpz_powm_ui(P4, RC.p, 4, RN); mpz_powm_ui(t, RC.p, 2, RN); mpz_sub(u, P4, t); mpz_add_ui(u, u, 1); mpz_mod(u, u, RN); OBL(!mpz_sgn(u), "%s: pairing: r does not divide Phi_12(p)", who);
 		{ int js[] = {1, 2, 3, 4, 6}; for (int i = 0; i < 5; i++) { mpz_powm_ui(t, RC.p, (unsigned long)js[i], RN); OBL(mpz_cmp_ui(t, 1), "%s: pairing: r divides p^%d - 1: embedding degree below 12", who, js[i]); } }
 		/* twist */
-		if (!select_pc(id)) vf_fail(NULL, "%s: twist: no twist type matches b' (b/xi, b xi), or G2 is not on it / not of order r, or a tower constant is reducible", who);
+		if (!select_pc(id)) {
+#if FP_PRIME == 446 && !defined(FP_QNRES)
+			const char *kf = id == B12_P446 ? "L42-b12-p446-twist-needs-qnres" : NULL;
+#else
+			const char *kf = NULL;
+#endif
+			vf_fail(kf, "%s: twist: no twist type matches b' (b/xi, b xi), or G2 is not on it / not of order r, or a tower constant is reducible", who); }
 		else { mpz_t n2; mpz_init(n2); rpt2 T2, U2; rpt2_init(&T2); rpt2_init(&U2);
 			printf("@INFO curve %ld: twist type %s from the coefficients\n", id, twist_type == RLC_EP_DTYPE ? "D" : "M");
 			mpz_mul(n2, RN2, RH2); mpz_mul(t, RC.p, RC.p); mpz_add_ui(t, t, 1); mpz_sub(t, t, n2); mpz_mul(t, t, t); mpz_mul(u, RC.p, RC.p); mpz_mul_ui(u, u, 4); OBL(mpz_cmp(t, u) <= 0, "%s: twist: r h2 violates the Hasse bound over F_p^2", who);
